@@ -60,7 +60,7 @@ def check_origins(dlf, exp, i, opmap):
         if oref is None:
             want = defining
         elif isinstance(oref, dict):
-            t = opmap.get(oref['$origin'])
+            t = opmap.get(oref.get('$origin', oref.get('$origin_later')))
             want = t[0].name[0] if t else None
         else:
             want = oref
@@ -70,6 +70,10 @@ def check_origins(dlf, exp, i, opmap):
     for o, s, ri in dlf.objects_of_type('FILE-HEADER'):
         if o.name[0] not in refs:
             out.append(('origin-not-an-origin-of-this-file', 'file-header', f"FILE-HEADER origin {o.name[0]}"))
+        elif o.name[0] != defining:
+            # nobody can choose another origin for the file header: it belongs to the defining origin
+            out.append(('origin-wrong', 'file-header', f"FILE-HEADER has origin {o.name[0]}, the defining origin is "
+                                                       f"{defining}"))
     return out
 
 
@@ -106,6 +110,8 @@ class C07(Property):
             labels.append('object-before-origin')
         if any(isinstance(op.get('oref'), dict) for op in ops):
             labels.append('explicit-origin-ref')
+        if any(isinstance(op.get('oref'), dict) and '$origin_later' in op['oref'] for op in ops):
+            labels.append('origin-ref-before-origin-exists')
         nt = (repeated and nrefs >= 3) or n_or >= 2 or first_or > 0
         if r['outcome'] != 'written':
             return Result([], labels, False, outcome_label(r))
